@@ -1,6 +1,71 @@
-"""C15 — cache-wrapped stores are an atomically applied overlay."""
+"""C15 — cache-wrapped stores are an atomically applied overlay. Engine `kv` (sequential programs vs the proved
+model) plus engine `lin`: schedule-directed concurrent calls on one wrapper, each scenario explained by one of the
+two sequential orders on the model."""
+import json, os
+import common as c
 import kvcommon
+
+NLIN = {"quick": 250, "thorough": 4000}
+
+
+def lin(a, v, res, cov):
+    out = os.path.join(c.WORK, "lin-%s-%d" % (a.tier, a.seed))
+    rc, log = c.run_engine("lin", ["-seed", str(a.seed), "-n", str(NLIN[a.tier])], out, timeout=1800)
+    if rc != 0:
+        v.broken_obligation("lin driver failed on the implementation", log[-2000:])
+        return
+    impl = dict(l.rstrip("\n").split(" ", 1) for l in open(os.path.join(out, "lin.impl")))
+    stats = json.load(open(os.path.join(out, "lin.stats.json")))
+    cov["concurrent_scenarios"] = {"run": len(impl), "distribution": stats, "explained_by_a_sequential_order": 0,
+                                   "rule": "reader (Get/Has of a key not cached yet) held open inside the parent read while a writer "
+                                           "(Set/Delete of the same key) is started on the same wrapper; outcome (reader result, later "
+                                           "Get/Has, iteration, parent after Write) must equal the model's outcome for reader-then-writer "
+                                           "or writer-then-reader"}
+    if not (res.coq_ok and res.ocaml_ok):
+        return
+    rc, err = c.run_model("kv", os.path.join(out, "lin.ops"), os.path.join(out, "lin.model"))
+    if rc != 0:
+        v.broken_obligation("extracted model failed to run on the sequential explanations", err[-2000:])
+        return
+    # model observations per program id
+    obs = {}
+    for l in open(os.path.join(out, "lin.model")):
+        ident, r, g, t = kvcommon.split_obs(l.rstrip("\n"))
+        pid, idx = ident.rsplit(".", 1)
+        obs.setdefault(pid, []).append(r)
+    progs = {}
+    cur = None
+    for l in open(os.path.join(out, "lin.ops")):
+        l = l.rstrip("\n")
+        if l.startswith("P "):
+            cur = l.split(" ")[1]
+            progs[cur] = []
+        elif l.startswith("# "):
+            pass
+        elif cur is not None and not l.startswith("B ") and l != "E":
+            progs[cur].append(l)
+    ok = 0
+    for sc, line in impl.items():
+        allowed = []
+        for ord_ in ("a", "b"):
+            pid = sc + ord_
+            o, ops = obs.get(pid, []), progs.get(pid, [])
+            if len(o) != len(ops) or len(o) < 7:
+                continue
+            n = len(o)
+            ri = n - 7 if ord_ == "a" else n - 6         # index of the reader's own result
+            allowed.append("r1=%s|%s|%s|%s|%s" % (o[ri], o[n - 5], o[n - 4], o[n - 3], o[n - 1]))
+        if line in allowed:
+            ok += 1
+        else:
+            v.violation({"engine": "lin", "kind": "not-linearizable"},
+                        "concurrent calls on one cachekv wrapper did not take effect atomically: outcome `%s` is explained by neither "
+                        "sequential order (%s)" % (line, " / ".join(allowed)),
+                        {"scenario": sc, "sequential_order_a": progs.get(sc + "a"), "sequential_order_b": progs.get(sc + "b"),
+                         "impl": line, "allowed": allowed, "seed": a.seed})
+    cov["concurrent_scenarios"]["explained_by_a_sequential_order"] = ok
+
 
 def run(a):
     return kvcommon.run(a, "C15", lambda shape: any(s == "cache" for s in shape), {"result"},
-                        "cache store result differs from the overlay semantics")
+                        "cache store result differs from the overlay semantics", extra=lin, extra_bins=("lin",))
